@@ -241,11 +241,18 @@ func (w *world) reqmod() martian.RequestModifier {
 		case "err":
 			return modErr(it.s("ek", "plain"), reqErrMark)
 		case "skip":
-			ctx.SkipRoundTrip()
+			if ctx != nil {
+				ctx.SkipRoundTrip()
+			}
 		case "errskip":
-			ctx.SkipRoundTrip()
+			if ctx != nil {
+				ctx.SkipRoundTrip()
+			}
 			return modErr(it.s("ek", "plain"), reqErrMark)
 		case "hijack":
+			if ctx == nil { // no context for this message: the oracle reports it; nothing to hijack
+				return nil
+			}
 			conn, brw, err := ctx.Session().Hijack()
 			if err == nil {
 				w.mu.Lock()
@@ -288,6 +295,9 @@ func (w *world) resmod() martian.ResponseModifier {
 		case "err":
 			return modErr(it.s("sek", "plain"), resErrMark)
 		case "hijack":
+			if ctx == nil { // no context for this message: the oracle reports it; nothing to hijack
+				return nil
+			}
 			conn, brw, err := ctx.Session().Hijack()
 			if err == nil {
 				w.mu.Lock()
